@@ -78,6 +78,7 @@ def run(ctx) -> None:
     r04_3(ctx)
     r04_4(ctx)
     r04_5(ctx)
+    r04_6(ctx)
     ctx.floor("iterable_params", 20)
     ctx.floor("owning_handle_params", 3)
     ctx.floor("aclose_methods", 4)
@@ -335,6 +336,30 @@ def _handle_close_nodes(ctx, aclose: Unit, cfg, src: str) -> Set[Node]:
                                     or ownership._is_close_helper_await(ctx, aclose, n, src)) and not n.in_loop():
             out.add(n)
     return out
+
+
+# --------------------------------------------------------------------------- R04.6
+def r04_6(ctx) -> None:
+    """Handles usable as ``async with h:`` release on leaving the block: ``__aexit__`` of a class
+    that has ``aclose`` awaits ``self.aclose()`` on every normal path."""
+    ctx.rule("R04.6", "__aexit__ of a closable handle awaits self.aclose() on every path")
+    for mod in ctx.pkg.modules.values():
+        for info in mod.classes.values():
+            ex, acl, init = info.methods.get("__aexit__"), info.methods.get("aclose"), info.methods.get("__init__")
+            if ex is None or acl is None or ex.kind != "coroutine" or init is None:
+                continue
+            if not any({"ITERABLE", "ITERATOR"} & roles_of_annotation(p.annotation) for p in init.params()[1:]):
+                continue  # not a handle around a user's iterable (ExitStack.aclose is defined *by* its __aexit__)
+            ctx.count("closing_context_handles")
+            cfg = cfg_of(ctx.inlined(ex))
+            closes = {n for n in cfg.nodes if n.kind == "await" and isinstance(n.info.get("value"), ast.Call)
+                      and isinstance(n.info["value"].func, ast.Attribute) and n.info["value"].func.attr == "aclose"
+                      and norm(n.info["value"].func.value) == ex.param_names()[0]}
+            path = find_path(cfg.entry, lambda x: x is cfg.exit, avoid=lambda x: x in closes,
+                             edge_ok=lambda a, lab, b: lab not in ("e", "p"))
+            ctx.check(path is None and bool(closes), "R04.6", ex, "__aexit__",
+                      "leaving `async with <handle>` closes the handle (awaits self.aclose()) on every path",
+                      witness=pretty_path(path))
 
 
 # --------------------------------------------------------------------------- R04.4
